@@ -219,6 +219,10 @@ pub fn run() -> Report {
     for l in [252usize, 253, 10_000, 65_535, 65_536, 70_000, 400_000] {
         cases.push(Case::Pass { coin: "bitcoin", k: 2, start: None, auxpow: false, shape: Some((2, 2, 1, 25, true)), wit: l });
     }
+    // data-carrier outputs with long UTF-8 texts (a multi-byte character across every byte offset up to 200): wit = usize::MAX
+    for (cn, start) in [("bitcoin", None), ("bitcoin", Some(1u64)), ("litecoin", None), ("namecoin", None)] {
+        cases.push(Case::Pass { coin: cn, k: 2, start, auxpow: false, shape: Some((1, 1, 1, 25, false)), wit: usize::MAX });
+    }
     for base in [127u64, 16_511, 2_113_663, 270_549_119, (1 << 32) - 2, 1 << 40] {
         cases.push(Case::HighPass { base, flip: false });
         cases.push(Case::HighPass { base, flip: true });
@@ -340,7 +344,7 @@ pub fn run() -> Report {
                         txs.push(TxP::base().build(j as u8));
                     }
                     if let Some((n_in, n_out, sig, spk, segwit)) = shape {
-                        let p = TxP { segwit: *segwit, sig_lens: vec![*sig; *n_in], spk_lens: vec![*spk; *n_out], wit: if *wit > 0 { let mut w = vec![vec![2, 3]; *n_in]; w[0] = vec![*wit, 1]; w } else if *segwit { vec![vec![2, 3]; *n_in] } else { vec![] }, ..TxP::base() };
+                        let p = TxP { segwit: *segwit, sig_lens: vec![*sig; *n_in], spk_lens: vec![*spk; *n_out], text_outputs: *wit == usize::MAX, wit: if *wit > 0 && *wit != usize::MAX { let mut w = vec![vec![2, 3]; *n_in]; w[0] = vec![*wit, 1]; w } else if *segwit { vec![vec![2, 3]; *n_in] } else { vec![] }, ..TxP::base() };
                         txs.push(p.build(99));
                         acc.count("must-pass:transaction-shape", 1);
                     }
